@@ -2093,6 +2093,10 @@ class TLSConnection(TLSRecordLayer):
             for result in self._sendError(\
                     AlertDescription.illegal_parameter, e):
                 yield result
+        except TLSDecodeError as e:
+            for result in self._sendError(\
+                    AlertDescription.decode_error, e):
+                yield result
 
         clientKeyExchange = keyExchange.makeClientKeyExchange()
 
